@@ -389,6 +389,26 @@ def histOps : Option (List Op) → List Op
   | none => []
   | some pre => pre ++ [.maint]
 
+/-- from a state in which the source's counter is ≤ 0 (or it has no entry), through events only:
+    a true answer needs `T` events of the source that reached the counter -/
+theorem ban_no_residue (cfg : Cfg) (st0 : State) (suf : List Op) (e : Ev) (T : Int)
+    (hT : 0 < T) (hT32 : T < 2147483648)
+    (hR0 : AllInR st0) (hB0 : Bnd e.id T 0 st0)
+    (hsuf : ∀ op ∈ suf, isMaint op = false)
+    (huni : Uniform cfg e.id T suf)
+    (hv : verdict cfg e = .count T)
+    (ha : (isSpam cfg (run cfg st0 suf) e).1 = true) :
+    (reached cfg e.id (suf ++ [.event e]) : Int) ≥ T := by
+  have hB := bnd_suffix cfg e.id T hT hT32 suf st0 0 hR0 hB0 hsuf huni
+  have hR := allInR_run cfg st0 suf hR0
+  rw [isSpam_count hv] at ha
+  have h2 := (hit_bound cfg T e ((run cfg st0 suf).m e.id) ((0 + reached cfg e.id suf : Nat) : Int)
+    hT hT32 (by omega) (fun s hs => hR _ _ hs) (fun s hs => hB s hs)).2 ha
+  have hr : reaches cfg e.id (.event e) = !e.isNew := by simp [reaches, hv]
+  rw [reached_append]
+  simp only [reached_cons, hr]
+  cases hn : e.isNew <;> simp [hn, reached] at h2 ⊢ <;> omega
+
 theorem ban_core (cfg : Cfg) (hist : Option (List Op)) (suf : List Op) (e : Ev) (T : Int)
     (hvalid : CfgValid cfg) (hU : 0 ≤ cfg.unban) (hT : 0 < T) (hT32 : T < 2147483648)
     (hsuf : ∀ op ∈ suf, isMaint op = false)
@@ -397,25 +417,12 @@ theorem ban_core (cfg : Cfg) (hist : Option (List Op)) (suf : List Op) (e : Ev) 
     (hans : (isSpam cfg (run cfg init (histOps hist ++ suf)) e).1 = true) :
     (reached cfg e.id (suf ++ [.event e]) : Int) ≥ T ∨
     ∃ pre s, hist = some pre ∧ (run cfg init pre).m e.id = some s ∧ s.counter ≥ s.thr := by
-  -- the state right after the last round (or the initial state) and what is known of it
-  have key : ∀ st0 : State, AllInR st0 → Bnd e.id T 0 st0 →
-      (isSpam cfg (run cfg st0 suf) e).1 = true → (reached cfg e.id (suf ++ [.event e]) : Int) ≥ T := by
-    intro st0 hR0 hB0 ha
-    have hB := bnd_suffix cfg e.id T hT hT32 suf st0 0 hR0 hB0 hsuf huni
-    have hR := allInR_run cfg st0 suf hR0
-    rw [isSpam_count hv] at ha
-    have h2 := (hit_bound cfg T e ((run cfg st0 suf).m e.id) ((0 + reached cfg e.id suf : Nat) : Int)
-      hT hT32 (by omega) (fun s hs => hR _ _ hs) (fun s hs => hB s hs)).2 ha
-    have hr : reaches cfg e.id (.event e) = !e.isNew := by simp [reaches, hv]
-    rw [reached_append]
-    simp only [reached_cons, hr]
-    cases hn : e.isNew <;> simp [hn, reached] at h2 ⊢ <;> omega
   cases hist with
   | none =>
     left
-    apply key init allInR_init
-    · intro s hs; simp [init] at hs
+    apply ban_no_residue cfg init suf e T hT hT32 allInR_init _ hsuf huni hv
     · simpa [histOps] using hans
+    · intro s hs; simp [init] at hs
   | some pre =>
     have hrun : run cfg init (histOps (some pre) ++ suf) = run cfg (maintenance cfg (run cfg init pre)) suf := by
       simp [histOps, run_append, run, step]
@@ -425,7 +432,8 @@ theorem ban_core (cfg : Cfg) (hist : Option (List Op)) (suf : List Op) (e : Ev) 
     rcases maint_bnd cfg (run cfg init pre) e.id T hU hthr with ⟨s, hs, hb⟩ | hB0
     · exact Or.inr ⟨pre, s, rfl, hs, hb⟩
     · left
-      exact key _ (allInR_step cfg _ .maint (allInR_run cfg init pre allInR_init)) hB0 hans
+      exact ban_no_residue cfg _ suf e T hT hT32
+        (allInR_step cfg _ .maint (allInR_run cfg init pre allInR_init)) hB0 hsuf huni hv hans
 
 /-! ### silent_source_unbanned: decay of a source that gets no events -/
 
